@@ -140,7 +140,7 @@ def gen(rng, kind, tier):
         spec = _rand_grid(rng, dim, tier)
         d = _rand_droplet(rng, spec)
         vmin, vmax = _levels(rng)
-        return {"grid": spec, "droplet": d, "vmin": vmin, "vmax": vmax}
+        return {"grid": spec, "droplet": d, "vmin": vmin, "vmax": vmax, "route": common.pick_route(rng, 0.7)}
     if kind == "roll":
         dim = int(rng.choice([1, 2, 2, 3]))
         nmax = {1: 24, 2: 12, 3: 7}[dim]
@@ -282,7 +282,7 @@ def run(case, rec):
     if kind in ("single", "roll", "sentinel"):
         d = case["droplet"]
         vmin, vmax = case["vmin"], case["vmax"]
-        drop = common.monitored(rec, "construct", make_droplet, d)
+        drop = common.monitored(rec, "construct", lambda: common.via(make_droplet(d), case.get("route")))
         if not drop.ok:
             rec.harness_error(f"cannot construct {d}: {drop.exc!r}")
             return
